@@ -743,7 +743,7 @@ func (fr *Frame) precreateGhostsIn(blocks []*ssa.BasicBlock, infn *ssa.Function,
 			if callee := cc.StaticCallee(); callee != nil && len(callee.Blocks) > 0 {
 				// bodies that are inlined, and bodies summarised by a contract
 				// (the contract may speak about the log entries they append)
-				if sp := fr.fx.eng.specFor(callee); sp == nil || sp.Inline || (!sp.Extern && !sp.Pure) {
+				if sp := fr.fx.eng.specFor(callee); sp == nil || sp.Inline || (!sp.Extern && !sp.Pure && !sp.Trusted) {
 					targets = append(targets, callee)
 				}
 			} else if !cc.IsInvoke() {
